@@ -166,6 +166,11 @@ def build(case):
     for pi, wp in enumerate(case.get("wps", [])):
         for inp in wp.get("inputs", []):
             wps[pi].append_input_workplace(wps[inp])
+        if wp.get("parent") is not None:
+            wps[pi].parent_workplace = wps[wp["parent"]]
+    for ti, tm in enumerate(case.get("teams", [])):
+        if tm.get("parent") is not None:
+            teams[ti].parent_team = teams[tm["parent"]]
     for i, t in enumerate(case["tasks"]):
         for tm in t.get("teams", []):
             teams[tm].append_targeted_task(tasks[i])
